@@ -63,6 +63,11 @@ CHECKS["C13"] = {
     "note": COMMON_NOTE + "Modelled library behaviour (csv writer/reader, StringIO) is compared with the real modules on every generated row; typed fields (int/float/str), JSON values and whole record files (edit, save, reopen in both flavours) are exercised on the real code against the model's prediction 'round trip succeeds'. Assumed, not proved: json.loads(json.dumps(v))==v, int(str(i))==i, float(repr(x))==x.",
     "technique": "Lean 4 proof (parser state invariant over written rows) + model/code correspondence check",
 }
+CHECKS["C20"] = {
+    "text": "Lean: for every history of create/remove/flush by any process of a (multi-process) pool, forks, and files deleted from outside, the invariant holds (one shared list object referenced by every process, no path listed twice, every existing file listed); create returns a fresh existing path; without outside deletion the listed paths are exactly the existing ones; after flush() by any process and after leaving the context (normally or by exception: the same __exit__) no file of the pool exists and nothing is listed; removing an unlisted path raises ValueError. FilePool: every path has an open handle inside, all are closed and the pool holds none after leaving, however it is left.",
+    "note": COMMON_NOTE + "tempfile / os.remove / manager-list proxies inherited through fork are modelled library behaviour; the harness runs real temp directories, a real Manager and real forked children driven over pipes. FilePool.open failing half-way (a path that cannot be opened) is outside the property as stated.",
+    "technique": "Lean 4 proof (inductive invariant over pool histories) + model/code correspondence check",
+}
 NOT_APPLICABLE = []
 NOTES = ("Checks are added as their models, theorems and correspondence harnesses are completed; properties not yet listed are "
          "work in progress (see DESIGN.md), not 'not applicable'.")
